@@ -8,7 +8,7 @@ def decImps41 : List Sexp → Option (List Imp)
   | _ => none
 
 /-- `(wf lower prog)` / `(wf deadns prog)` → `(wf <wf p> <wf (T p)>)` (`raised` when the model of dead-code removal raises);
-`(bare (used…) ((use m (sym…))…))` → `(bare <KnownBareUse>)`; oracle-only requests `(t …)` → `(nomodel)` -/
+`(bare (used…) ((use m (sym…))…))` → `(bare <the model drops a USE without ONLY list>)`; oracle-only requests `(t …)` → `(nomodel)` -/
 def step : Sexp → Option Sexp
   | list [atom "wf", atom "lower", prog] => do
       let p ← decProgram prog
@@ -19,7 +19,8 @@ def step : Sexp → Option Sexp
       | some q => pure (list [atom "wf", ofBool (wf p), ofBool (wf q)])
       | none => pure (list [atom "wf", ofBool (wf p), atom "raised"])
   | list [atom "bare", list used, list imps] => do
-      pure (list [atom "bare", ofBool (KnownBareUse (← decStrs used) (← decImps41 imps))])
+      let u ← decStrs used; let is ← decImps41 imps
+      pure (list [atom "bare", ofBool (bareModules (elimImports u is) != bareModules is)])
   | list (atom "t" :: _) => some (list [atom "nomodel"])
   | _ => none
 
